@@ -88,6 +88,48 @@ fn fault_table() -> Vec<(&'static str, Class)> {
     ]
 }
 
+/// SCPI-99 vol. 2 chapter 21.8 error/event numbers (written from the standard, not from the library).
+const STANDARD_CODES: &[i16] = &[
+    0, -100, -101, -102, -103, -104, -105, -108, -109, -110, -111, -112, -113, -114, -120, -121, -123, -124, -128, -130, -131, -134, -138, -140, -141, -144, -148, -150, -151, -158, -160, -161, -168,
+    -170, -171, -178, -180, -181, -183, -184, -200, -201, -202, -203, -210, -211, -212, -213, -214, -215, -220, -221, -222, -223, -224, -225, -226, -230, -231, -232, -233, -240, -241, -250, -251,
+    -252, -253, -254, -255, -256, -257, -258, -260, -261, -270, -271, -272, -273, -274, -275, -276, -277, -278, -280, -281, -282, -283, -284, -285, -286, -290, -291, -292, -293, -294, -300, -310,
+    -311, -312, -313, -314, -315, -320, -321, -330, -340, -350, -360, -361, -362, -363, -365, -400, -410, -420, -430, -440, -500, -600, -700, -800,
+];
+
+/// (cases evaluated, violations as (index, text))
+fn quantity_type_faults() -> (u64, Vec<(u64, String)>) {
+    use scpi::parser::suffix::{Amplitude, Db};
+    use scpi::units as q32;
+    use scpi::units::uom::si::f64 as q64;
+    let mut n = 0u64;
+    let mut bad = vec![];
+    macro_rules! dt {
+        ($t:ty, $name:expr) => {
+            for t in crate::props::c18::non_numeric_tokens().into_iter() {
+                n += 1;
+                if let Err(e) = <$t>::try_from(t) {
+                    if class_of(e.get_code()) != Some(Class::Command) {
+                        bad.push((n, format!("{:?} offered to {} raises {}; a data-type fault is a command error", t, $name, e.get_code())));
+                    }
+                }
+            }
+        };
+    }
+    dt!(q32::ElectricPotential, "ElectricPotential<f32>");
+    dt!(q64::ElectricPotential, "ElectricPotential<f64>");
+    dt!(q32::Frequency, "Frequency<f32>");
+    dt!(q32::Time, "Time<f32>");
+    dt!(q64::Power, "Power<f64>");
+    dt!(q32::ThermodynamicTemperature, "ThermodynamicTemperature<f32>");
+    dt!(q32::Ratio, "Ratio<f32>");
+    dt!(Amplitude<q32::ElectricPotential>, "Amplitude<ElectricPotential>");
+    dt!(Db<f32, q32::ElectricPotential>, "Db<f32,ElectricPotential>");
+    dt!(Db<f32, q32::ElectricCurrent>, "Db<f32,ElectricCurrent>");
+    dt!(Db<f32, q32::Power>, "Db<f32,Power>");
+    dt!(Db<f32, q32::Ratio>, "Db<f32,Ratio>");
+    (n, bad)
+}
+
 fn class_of(code: i16) -> Option<Class> {
     match code {
         -199..=-100 => Some(Class::Command),
@@ -213,10 +255,50 @@ pub fn run(ctx: &'static Ctx) -> i32 {
             }
         }
     }
+    // data-type faults raised by the unit-quantity conversions (outside the message path): a
+    // non-numeric element offered to a quantity, amplitude or decibel type is a command error
+    let (n_qt, bad_qt) = quantity_type_faults();
+    fault_cases += n_qt;
+    for (j, w) in bad_qt {
+        ctx.violation(85000 + j, "conversion-fault-class", &w, json!({"kind": "quantity-type", "index": j}));
+    }
+    // response buffer exhausted: a value fault (execution-error class)
+    {
+        use crate::rig::{RigDev, SharedTree};
+        let spec = crate::props::c10::framing_tree();
+        let shared = SharedTree::of(&spec);
+        for (j, (m, cap)) in [(&b"QON?"[..], 0usize), (b"QON?", 1), (b"QON?", 2), (b"QTHR?", 7), (b":QVOL?", 3), (b"QON?;QON?", 3), (b"QON?;QON?", 5)].iter().enumerate() {
+            fault_cases += 1;
+            let mut dev = RigDev::new();
+            crate::props::c10::framing_plans(&mut dev);
+            match crate::props::c11::run_with_cap(*cap, shared.node(), &mut dev, m) {
+                Ok(cr) => match cr.result {
+                    Err(code) if class_of(code) == Some(Class::Execution) => {}
+                    Ok(()) => {} // whether the message must fail at all is C11's question, not this one
+                    other => {
+                        ctx.violation(87000 + j as u64, "buffer-fault-class", &format!("`{}` with a {cap}-byte response buffer gives {:?}; response buffer exhaustion is an execution error", esc(m), other), json!({"kind": "buffer", "msg": esc(m), "cap": cap}));
+                    }
+                },
+                Err(p) => {
+                    ctx.violation(87000 + j as u64, "panic", &format!("`{}` with a {cap}-byte buffer panicked: {p}", esc(m)), json!({"kind": "buffer", "msg": esc(m), "cap": cap}));
+                }
+            }
+        }
+    }
+    // an independently written list of SCPI-99 (vol. 2, 21.8) standard numbers: each must be known
+    // to the lookup and report itself
+    for &n in STANDARD_CODES {
+        fault_cases += 1;
+        match ErrorCode::get_error(n) {
+            Some(e) if e.get_code() == n && Error::new(e).get_code() == n => {}
+            Some(e) => { ctx.violation(90000 + (-(n as i32)) as u64, "lookup-roundtrip", &format!("ErrorCode::get_error({n}) yields an error reporting code {}", e.get_code()), json!({"kind": "code", "n": n})); }
+            None => { ctx.violation(90000 + (-(n as i32)) as u64, "lookup-missing", &format!("ErrorCode::get_error({n}) knows no error although {n} is a SCPI-99 standard error number"), json!({"kind": "std-code", "n": n})); }
+        }
+    }
     let mut c = cov();
     c.insert("evaluations".into(), json!(evals + fault_cases));
     c.insert("distinct_nontrivial".into(), json!(std_variants + boundaries + fault_cases));
-    c.insert("rule".into(), json!("all 65536 i16 error numbers through Error::custom / ErrorCode::Custom (esr_mask vs an independently written class table) and, where ErrorCode::get_error(n) is defined, the standard variant (code round trip, esr_mask, non-empty ASCII message); plus a table of faulty messages (syntax, header, arity, data type -> command error; value faults -> execution error) run through the real parser on the documented device, checking the class of the raised error and the ESR bit that ends up set; distinct non-trivial = standard variants + century-boundary numbers + fault-table messages"));
+    c.insert("rule".into(), json!("all 65536 i16 error numbers through Error::custom / ErrorCode::Custom (esr_mask vs an independently written class table) and, where ErrorCode::get_error(n) is defined, the standard variant (code round trip, esr_mask, non-empty ASCII message); plus a table of faulty messages (syntax, header, arity, data type -> command error; value faults -> execution error) run through the real parser on the documented device, checking the class of the raised error and the ESR bit that ends up set; non-numeric elements (string, block, expression, non-decimal, character data incl. the special-value mnemonics) offered to 12 quantity / Amplitude / Db types -> command error; an independently written list of the SCPI-99 21.8 standard numbers, each of which the lookup must know and report; distinct non-trivial = standard variants + century-boundary numbers + fault-table messages"));
     c.insert("exhaustive".into(), json!(true));
     c.insert("standard_variants".into(), json!(std_variants));
     c.insert("distinct_masks_observed".into(), json!(distinct_masks.len()));
@@ -271,6 +353,34 @@ pub fn replay(case: &Value) -> Result<String, String> {
                 Ok(format!("{:?}", code))
             } else {
                 Err(format!("conversion-fault-class: {:?}", code))
+            }
+        }
+        Some("buffer") => {
+            use crate::rig::RigDev;
+            let spec = crate::props::c10::framing_tree();
+            let mut dev = RigDev::new();
+            crate::props::c10::framing_plans(&mut dev);
+            let m = unesc(case["msg"].as_str().unwrap());
+            let cap = case["cap"].as_u64().unwrap() as usize;
+            let cr = crate::props::c11::run_with_cap(cap, spec.build(), &mut dev, &m)?;
+            match cr.result {
+                Err(code) if class_of(code) == Some(Class::Execution) => Ok(format!("{code}")),
+                other => Err(format!("buffer-fault-class: {:?}", other)),
+            }
+        }
+        Some("quantity-type") => {
+            let (_, bad) = quantity_type_faults();
+            match bad.first() {
+                Some((_, w)) => Err(format!("conversion-fault-class: {w}")),
+                None => Ok("all quantity data-type faults are command errors".into()),
+            }
+        }
+        Some("std-code") => {
+            let n = case["n"].as_i64().unwrap() as i16;
+            match ErrorCode::get_error(n) {
+                Some(e) if e.get_code() == n => Ok(format!("{n} known")),
+                Some(e) => Err(format!("lookup-roundtrip: get_error({n}) reports {}", e.get_code())),
+                None => Err(format!("lookup-missing: get_error({n}) is None")),
             }
         }
         _ => engine_failure("bad C14 replay"),
